@@ -279,3 +279,63 @@ def codec_rule(ctx, prog, an, rule):
                    "decoder takes %s byte(s)%s into FieldValue::%s; encoder writes %s" % (c[1], (" then applies " + str([x.rsplit("::", 1)[-1] for x in lossy])) if lossy else "", var,
                                                                                       ("the stored bytes" if not enc_lossy and e["width"] is None else "%s via %s" % (e["width"], [x.rsplit("::", 1)[-1] for x in e["calls"]]))))
     ctx.floor(rule, "codec", "value kinds x widths paired", n, 20)
+
+
+# ---------------------------------------------------------------------------
+# record cursor atomicity (R9.4 / R10.6 / R4.4)
+
+def records_parser_of(lay, decoder_path):
+    """The function that decodes the records of a data flowset: the parser behind the `fields` step."""
+    L = lay.parser_layout(decoder_path)
+    if not L["ok"]:
+        return None
+    for s in L["steps"]:
+        if "fields" in s["fields"]:
+            t = s["term"]
+            while t[0] in ("closure",):
+                t = t[2]
+            if t[0] == "struct":
+                return t[2]
+    return None
+
+
+def cursor_atomicity_rule(ctx, prog, an, rule, decoder_path):
+    """The remainder returned by the record decoder (it becomes `padding`) may only advance once per complete
+    record: inside the record loop the returned cursor is (re)assigned at the record loop's own nesting level,
+    never inside a nested per-field repetition — otherwise the bytes of a half-decoded record are in neither
+    `fields` nor `padding` and a re-export is shorter than the input."""
+    from .c01 import loop_depths
+    from .c02 import underlying_locals
+    lay = Layouts(prog, an)
+    fn = records_parser_of(lay, decoder_path)
+    b = prog.body(fn) if fn else None
+    if not ctx.anchor(rule, decoder_path + " → records parser", b):
+        return
+    sl = an.slicer(b)
+    # local returned as the remainder: _0 = Ok((cursor, fields))
+    cur_locals = set()
+    for blk, i, s in b.stmts():
+        if s["k"] == "assign" and s["place"]["l"] == 0 and s["rv"]["k"] == "aggregate" and s["rv"].get("variant") == "Ok":
+            o = s["rv"]["ops"][0]
+            if o.get("k") in ("copy", "move"):
+                tl = o["place"]["l"]
+                for d in sl.defs.get(tl, []):
+                    if d[0] == "assign" and d[3]["k"] == "aggregate" and d[3]["agg"] == "tuple":
+                        c0 = d[3]["ops"][0]
+                        if c0.get("k") in ("copy", "move"):
+                            cur_locals |= underlying_locals(sl, c0["place"]["l"])
+    cur_locals = set(l for l in cur_locals if l > b.arg_count)
+    depths = loop_depths(b)
+    n = 0
+    for l in sorted(cur_locals):
+        defs = [d for d in sl.defs.get(l, []) if d[1] in depths]
+        if not defs:
+            continue
+        base = min(depths.values())  # the outermost loop of the records parser is the record repetition
+        for d in defs:
+            n += 1
+            ok = depths[d[1]] == base
+            ctx.ob(rule, b.path, "cursor-advances-per-record", ok,
+                   "returned remainder local _%d is assigned at loop depth %d (record loop depth %d)%s" % (l, depths[d[1]], base, "" if ok else " — it advances inside a nested per-field repetition, so a record failing mid-way loses the bytes already consumed"),
+                   site=b.line(d[1]))
+    ctx.ob(rule, b.path, "cursor-definitions-inspected", n > 0, "%d in-loop definition(s) of the returned remainder inspected" % n)
